@@ -205,7 +205,7 @@ def main():
     batch = Batch(a.prop, {"tier": a.tier, "seed": a.seed, "prop": a.prop})
     stats = {"events": 0, "programs": 0}
     quick = a.tier == "quick"
-    cap = 2000 if quick else 40000
+    cap = 2000 if quick else 6000       # programs per set also bound the size of the batch TLC has to read
     specs = [s for s in GR.fixed_specs() if finite_choice(s)]
     fam = [s for s in GR.family(R, 60 if quick else 600, FEATS) if finite_choice(s)]
     jobs = []
@@ -213,7 +213,7 @@ def main():
         for spec in list(GR.RAW) + specs + fam[: (12 if quick else 150)]:
             jobs.append(("c10", spec, cap, a.prop))
     else:
-        for spec in specs + fam[: (30 if quick else 400)]:
+        for spec in specs + fam[: (30 if quick else 300)]:
             jobs.append(("one", spec, cap, a.prop))
         for spec in specs + fam[: (10 if quick else 100)]:
             if GR.lang_size(spec, 3) <= cap:
